@@ -45,6 +45,10 @@ def type_from_ast(node):
     return ("named", node.name.value)
 
 
+class RequestError(Exception):
+    """spec 6.1.2 CoerceVariableValues: the request fails before execution (no data entry)"""
+
+
 class Executor:
     def __init__(self, model, document, variables, world, root_types=None):
         self.model, self.doc, self.vars, self.world = model, document, variables, world
@@ -73,6 +77,9 @@ class Executor:
                 out[name] = self.coerce_input(t, self.vars[name])
             elif vd.default_value is not None:
                 out[name] = self.literal(vd.default_value, t)
+            # 6.1.2 step 3.g / 3.h: a non-null variable without a value, or with the value null, is a request error
+            if t[0] == "nonnull" and out.get(name) is None:
+                raise RequestError("variable $%s of non-null type has no value" % name)
         return out
 
     # ---- 6.3.2 CollectFields
